@@ -555,7 +555,13 @@ impl Gen<'_> {
             3..=5 => hyb(Hyb::Bind, v, None, un(Un::AX, var(v))),
             6 => match other {
                 // near miss: different variable inside
-                Some(o) => hyb(Hyb::Bind, v, None, un(Un::AG, un(Un::EF, var(&o)))),
+                Some(o) => {
+                    if self.rng.coin() {
+                        hyb(Hyb::Bind, v, None, un(Un::AG, un(Un::EF, var(&o))))
+                    } else {
+                        hyb(Hyb::Bind, v, None, un(Un::AX, var(&o)))
+                    }
+                }
                 None => hyb(Hyb::Exists, v, None, un(Un::AX, var(v))),
             },
             7 => match dom {
